@@ -35,7 +35,7 @@ CONSTANTS K,            \* capacity of the kernel buffer towards the peer
 
 VARIABLES st,           \* "Inited" | "Running"                      (state_)
           alive,        \* "alive" | "detached" (swapped out, delete posted with runNext) | "freed"
-          cb,           \* 1 / 2 while inside the receive / read-zero callback of this object (cb_level_)
+          cb,           \* 1 / 2 / 3 while inside the receive / read-zero / send-complete callback of this object (cb_level_)
           sendq,        \* send_buff_ : offsets accepted but not yet written
           kout,         \* offsets written to the kernel, not yet read by the peer
           got,          \* offsets the peer has read, in the order it read them
@@ -99,17 +99,30 @@ Disable ==
   /\ UNCHANGED <<alive, cb, sendq, kout, got, kin, rbuf, thr, pclosed, eofRep, nsent, npw, consumed, presented, pres, presFrom>>
 
 (* --- onWriteCallback --------------------------------------------------------- *)
+(* Empty queue: disarm FIRST, then notify send-complete (cb = 3 while the user callback is on the stack, so a   *)
+(* send() / disable() / disconnect() made from inside it interleaves: a re-entrant send() that is written only  *)
+(* partly queues its remainder and arms the write event again).                                                  *)
+(* Bug "latedisarm": the notification is given in the same write event that drained the backlog and the write   *)
+(* event is switched off only after the callback returned (cb = 4) - which undoes the arming of a re-entrant send. *)
 WritableCb ==
   /\ st = "Running" /\ wrArmed /\ cb = 0 /\ Len(kout) < K
   /\ IF sendq = <<>>
-     THEN /\ wrArmed' = FALSE /\ lastComplete' = TRUE                 \* send-complete notification
+     THEN /\ wrArmed' = FALSE /\ lastComplete' = TRUE /\ cb' = 3            \* send-complete notification
           /\ UNCHANGED <<sendq, kout>>
      ELSE \E k \in 1 .. Min(Len(sendq), K - Len(kout)) :
             /\ kout' = kout \o Take(sendq, k)
             /\ sendq' = (IF "readall" \in Bugs THEN <<>> ELSE Drop(sendq, k))
-            /\ lastComplete' = ("complete_early" \in Bugs)
+            /\ IF "latedisarm" \in Bugs /\ k = Len(sendq)
+               THEN lastComplete' = TRUE /\ cb' = 4
+               ELSE lastComplete' = ("complete_early" \in Bugs) /\ cb' = cb
             /\ UNCHANGED wrArmed
-  /\ UNCHANGED <<st, alive, cb, got, kin, rbuf, thr, pclosed, eofRep, nsent, npw, consumed, presented, pres, presFrom, ndis>>
+  /\ UNCHANGED <<st, alive, got, kin, rbuf, thr, pclosed, eofRep, nsent, npw, consumed, presented, pres, presFrom, ndis>>
+
+CompleteExit ==                     \* the send-complete callback returns
+  /\ cb \in {3, 4}
+  /\ cb' = 0 /\ lastComplete' = FALSE
+  /\ wrArmed' = (IF cb = 4 THEN FALSE ELSE wrArmed)
+  /\ UNCHANGED <<st, alive, sendq, kout, got, kin, rbuf, thr, pclosed, eofRep, nsent, npw, consumed, presented, pres, presFrom, ndis>>
 
 (* --- the peer ------------------------------------------------------------------ *)
 PeerRead(m) ==
@@ -185,7 +198,7 @@ RecvExitAny  == \E c \in 0 .. (MaxPeer) : RecvExit(c)
 Next ==
   \/ SendAny \/ Enable \/ Disable \/ WritableCb
   \/ PeerReadAny \/ PeerWriteAny \/ PeerClose
-  \/ RecvEnter \/ RecvExitAny \/ ReadZeroEnter \/ ReadZeroExit
+  \/ RecvEnter \/ RecvExitAny \/ ReadZeroEnter \/ ReadZeroExit \/ CompleteExit
   \/ LocalDisconnect \/ RunNextDelete
 
 Spec == Init /\ [][Next]_vars
@@ -193,11 +206,11 @@ Spec == Init /\ [][Next]_vars
 (* Fairness for the liveness form: the loop keeps dispatching ready callbacks, the peer keeps      *)
 (* reading, and the user eventually leaves the descriptor enabled (Disable is bounded).            *)
 FairSpec == Spec /\ WF_vars(WritableCb) /\ WF_vars(PeerReadAny) /\ WF_vars(Enable)
-                 /\ WF_vars(RecvEnter) /\ WF_vars(RecvExitAny) /\ WF_vars(ReadZeroEnter) /\ WF_vars(ReadZeroExit)
+                 /\ WF_vars(RecvEnter) /\ WF_vars(RecvExitAny) /\ WF_vars(ReadZeroEnter) /\ WF_vars(ReadZeroExit) /\ WF_vars(CompleteExit)
 
 (* ------------------------------- properties --------------------------------------- *)
 TypeOK ==
-  /\ st \in {"Inited", "Running"} /\ alive \in {"alive", "detached", "freed"} /\ cb \in {0, 1, 2}
+  /\ st \in {"Inited", "Running"} /\ alive \in {"alive", "detached", "freed"} /\ cb \in {0, 1, 2, 3, 4}
   /\ wrArmed \in BOOLEAN /\ pclosed \in BOOLEAN /\ lastComplete \in BOOLEAN
   /\ Len(kout) <= K /\ Len(kin) <= KI
 
